@@ -151,7 +151,12 @@ def sx_getitem(a, k):
     return a[k]
 
 
+RAW_HASH = [False]
+
+
 def sx_hash(v):
+    if RAW_HASH[0]:
+        return v
     if isinstance(v, (C.SymInt, C.SymBytes)):
         return 0     # constant hash: dict/set semantics then rest on __eq__, which stays symbolic
     return v
